@@ -132,14 +132,16 @@ def evaluate_on_grid(
     return out
 
 
-@njit(parallel=True)
+# Not parallel: the bins are accumulators shared by all points, and concurrent
+# `+=` on the same bin from several threads loses updates.
+@njit
 def hist2d(x, y, values, xmin, xmax, nx, ymin, ymax, ny):
     out = np.zeros(shape=(values.shape[0], ny, nx), dtype=np.float64)
     counts = np.zeros(shape=(ny, nx), dtype=np.int64)
     dx = (xmax - xmin) / nx
     dy = (ymax - ymin) / ny
 
-    for i in prange(len(x)):
+    for i in range(len(x)):
         indx = int(np.floor((x[i] - xmin) / dx))
         indy = int(np.floor((y[i] - ymin) / dy))
         if (indx >= 0) and (indx < nx) and (indy >= 0) and (indy < ny):
